@@ -309,7 +309,7 @@ func writeNativeOverlay(eng *Engine, outDir string) (string, error) {
 // nativeReplay runs the replay file against the real build. Returns the
 // VP-REPLAY-RESULT text ("timeout" if the run did not finish).
 func nativeReplay(repo, overlayJSON, pkgDir, replayPath string, gomaxprocs string, timeout time.Duration) (string, string) {
-	args := []string{"test", "-tags", "verif", "-vet=off", "-count=1", "-overlay", overlayJSON,
+	args := []string{"test", "-v", "-tags", "verif", "-vet=off", "-count=1", "-overlay", overlayJSON,
 		"-run", "^TestVPReplay$", "-timeout", fmt.Sprintf("%ds", int(timeout.Seconds())), "./" + pkgDir + "/"}
 	cmd := exec.Command("go", args...)
 	cmd.Dir = repo
@@ -467,7 +467,7 @@ func cmdCheck(repo, verif, prop, tier, only string) int {
 	}
 
 	known := loadKnown(verif)
-	outDir := filepath.Join(verif, "out", prop)
+	outDir := filepath.Join(envOr("VERIF_OUT", filepath.Join(verif, "out")), prop)
 	os.MkdirAll(outDir, 0755)
 	var overlayJSON string
 	violations := 0
@@ -529,7 +529,7 @@ func cmdCheck(repo, verif, prop, tier, only string) int {
 			data, _ := json.MarshalIndent(rf, "", " ")
 			os.WriteFile(rp, data, 0644)
 			if overlayJSON == "" {
-				overlayJSON, err = writeNativeOverlay(eng, filepath.Join(verif, "out", "native"))
+				overlayJSON, err = writeNativeOverlay(eng, filepath.Join(envOr("VERIF_OUT", filepath.Join(verif, "out")), "native"))
 				if err != nil {
 					problems = append(problems, "cannot write native overlay: "+err.Error())
 					continue
@@ -628,9 +628,10 @@ func cmdCheck(repo, verif, prop, tier, only string) int {
 			"explanation": "states = feasible+infeasible paths explored symbolically (each path covers every input satisfying its path condition); transitions = SSA instructions executed symbolically; traces_validated_against_impl = counterexample models replayed against the natively compiled code. Outside the bound: " + spec.Outside,
 			"problems": problems,
 		}}
-	os.MkdirAll(filepath.Join(verif, "evidence"), 0755)
+	evDir := envOr("VERIF_EVIDENCE_DIR", filepath.Join(verif, "evidence"))
+	os.MkdirAll(evDir, 0755)
 	data, _ := json.MarshalIndent(ev, "", " ")
-	os.WriteFile(filepath.Join(verif, "evidence", prop+".json"), data, 0644)
+	os.WriteFile(filepath.Join(evDir, prop+".json"), data, 0644)
 
 	fmt.Printf("symgo: %s paths=%d queries=%d (unsat %d, sat %d, unknown %d) solver=%.1fs wall=%.1fs violations=%d known=%d problems=%d\n",
 		prop, states, queries, unsat, sat, unknownQ, solverS, time.Since(t0).Seconds(), violations, knownHits, len(problems))
@@ -678,7 +679,7 @@ func cmdReplay(repo, verif, path string) int {
 		return 3
 	}
 	eng.overlay, eng.overlayFiles = ov, files
-	overlayJSON, err := writeNativeOverlay(eng, filepath.Join(verif, "out", "native"))
+	overlayJSON, err := writeNativeOverlay(eng, filepath.Join(envOr("VERIF_OUT", filepath.Join(verif, "out")), "native"))
 	if err != nil {
 		fmt.Fprintln(os.Stderr, err)
 		return 3
